@@ -9,7 +9,12 @@ import (
 	"sort"
 	"strings"
 
+	"context"
+
 	"git.defalsify.org/vise.git/cache"
+	memdb "git.defalsify.org/vise.git/db/mem"
+	"git.defalsify.org/vise.git/persist"
+	"git.defalsify.org/vise.git/state"
 	"verif/harness/internal/hx"
 )
 
@@ -76,6 +81,8 @@ func (o cop) term() string {
 		return "OPop"
 	case "reset":
 		return "OReset"
+	case "flushpop":
+		return "OPop"
 	}
 	return "OLast"
 }
@@ -119,6 +126,15 @@ func applyCop(ca *cache.Cache, o cop) string {
 			}
 		case "reset":
 			ca.Reset()
+		case "flushpop":
+			// the flush of a persister created WithFlush after a successful Save: Memory.Reset(); Memory.Pop()
+			// on this very cache object (always generated right after a "reset", so the Reset inside is idle)
+			m := memdb.NewMemDb()
+			m.Connect(context.Background(), "")
+			pe := persist.NewPersister(m).WithFlush().WithContent(state.NewState(1), ca)
+			if err := pe.Save("k"); err != nil {
+				res = cacheErr(err)
+			}
 		case "last":
 			res = "(RVal " + hx.S(ca.Last()) + ")"
 		}
@@ -182,7 +198,11 @@ func runCache(o opts) error {
 	run := func(idx int, cap uint32, ops []cop, kind string) {
 		ca := cache.NewCache()
 		if cap > 0 {
-			ca = ca.WithCacheSize(cap)
+			if idx%2 == 0 {
+				ca = ca.WithCacheSize(cap)
+			} else {
+				ca.WithCacheSize(cap) // as a statement on an existing cache (persist's tests do this)
+			}
 		}
 		obs := []string{}
 		shorts := []string{}
@@ -209,6 +229,8 @@ func runCache(o opts) error {
 	run(-1, 0, []cop{{kind: "add", k: "foo", v: "abc", limit: 10}, {kind: "update", k: "foo", v: strings.Repeat("y", 65540)}, {kind: "get", k: "foo"}}, "corpus:uint16-limit-update")
 	run(-1, 100, []cop{{kind: "add", k: "foo", v: "abc", limit: 0}, {kind: "update", k: "foo", v: ""}, {kind: "get", k: "foo"}}, "corpus:update-empty")
 	run(-1, 0, []cop{{kind: "pop"}, {kind: "pop"}, {kind: "add", k: "a", v: "1", limit: 0}, {kind: "reset"}, {kind: "last"}, {kind: "last"}}, "corpus:pop-at-top")
+	run(-2, 16, []cop{{kind: "add", k: "a", v: "12345678", limit: 0}, {kind: "push"}, {kind: "add", k: "b", v: "1234", limit: 0}, {kind: "reset"}, {kind: "flushpop"}, {kind: "add", k: "c", v: strings.Repeat("x", 17), limit: 0}, {kind: "add", k: "d", v: strings.Repeat("y", 16), limit: 0}, {kind: "add", k: "e", v: "z", limit: 0}}, "corpus:capacity-after-flush")
+	run(-3, 8, []cop{{kind: "add", k: "a", v: "123456789", limit: 0}, {kind: "add", k: "a", v: "1234", limit: 0}, {kind: "update", k: "a", v: "123456789"}}, "corpus:capacity-set-by-statement")
 	for c := 0; c < o.n; c++ {
 		r := hx.Rng(o.seed, "cache", c)
 		cap := caps[r.Intn(len(caps))]
@@ -234,6 +256,9 @@ func runCache(o opts) error {
 				ops = append(ops, cop{kind: "pop"})
 			case x < 19:
 				ops = append(ops, cop{kind: "reset"})
+				if r.Intn(2) == 0 { // ... as part of a persister's flush after Save
+					ops = append(ops, cop{kind: "flushpop"})
+				}
 			default:
 				ops = append(ops, cop{kind: "last"})
 			}
